@@ -281,7 +281,7 @@ func runHarness(prog *ssa.Program, s *Solver, cfg *Config, entry *ssa.Function) 
 	ex := &Explorer{}
 	reach := map[string]bool{}
 	for {
-		in := &Interp{prog: prog, s: s, ex: ex, cfg: cfg, globals: map[*ssa.Global]*Obj{}, reach: map[string]bool{}, once: map[string]bool{}, invMemo: map[string]*Term{}, bigVals: map[*Obj]*Term{}, bigField: map[*Obj]*Term{}, memoTerms: map[string][]*Term{},
+		in := &Interp{prog: prog, s: s, ex: ex, cfg: cfg, globals: map[*ssa.Global]*Obj{}, reach: map[string]bool{}, once: map[string]bool{}, invMemo: map[string]*Term{}, bigVals: map[*Obj]*Term{}, bigField: map[*Obj]*Term{}, memoTerms: map[string][]*Term{}, transcripts: map[*Obj]string{},
 			encoded: map[string]int{}, stubs: map[string]int{}, initDone: map[*ssa.Package]bool{}}
 		ex.pos = 0
 		in.noSummary = strings.Contains(entry.Name(), "_nosummary_")
